@@ -799,6 +799,15 @@ func newDynRandom(c *core.Ctx, kind string, total bool) *Dyn {
 		c.Begin(kind, "New", d.Elem, d.Config)
 		return d
 	}
+	if isKV(kind) && c.Prop == "C12" && r.Chance(1, 12) {
+		// keys that unmarshal themselves from text (see TK). Only where the
+		// statement is about what an input denotes: C11 is stated for string and
+		// integer keys, and the tree maps' ToJSON does write such keys by kind.
+		d = NewDyn(kind, TKDom(r.Range(4, 14)), IntDom(r.Range(4, 10)), cfg)
+		c.Count("dyn:text-marshaler-keys", 1)
+		c.Begin(kind, "New", d.Elem, d.Config)
+		return d
+	}
 	if isKV(kind) {
 		switch r.Intn(4) {
 		case 0:
